@@ -85,6 +85,29 @@ theorem SOFTBREAK (cfg : RCfg) (inH : Bool) (acc : Str) :
     renderInline cfg inH acc (.br true) = (['\n'], acc) := by
   simp [renderInline]
 
+/-- HEADING_ONE_LINE: whatever line breaks (soft or hard) the source had inside a heading's text —
+a setext heading may span several lines — none reaches the ATX heading that is written. -/
+theorem HEADING_ONE_LINE : ∀ (s : Str), '\n' ∉ unbreak s
+  | [] => by simp [unbreak]
+  | [a] => by
+    simp only [unbreak]
+    split
+    · simp
+    · rename_i ha
+      have hne : a ≠ '\n' := by simpa using ha
+      simpa using fun e : '\n' = a => hne e.symm
+  | a :: b :: rest => by
+    have h1 := HEADING_ONE_LINE rest
+    have h2 := HEADING_ONE_LINE (b :: rest)
+    simp only [unbreak]
+    split
+    · simpa using h1
+    · split
+      · simpa using h2
+      · rename_i hb ha
+        have : a ≠ '\n' := by simpa using ha
+        simp [this.symm, h2]
+
 /-- REWIDTH_partial: the words of a fill at any width `W1`, filled again at `W2`, give what filling
 the original words at `W2` gives — provided the escape is the identity on every word (no word that
 would be escaped at a line start). -/
